@@ -806,18 +806,23 @@ def setup_encoder(shared):
     shared.stubs[PRE + "two_hot_cross_entropy_loss"] = ce_contract
 
     def observe(E, fn, args, kwargs):
-        # documented precondition of masked_mse_loss at every call site:
-        # predictions / targets (n_samples, n_features), mask (n_samples,)
+        # precondition of masked_mse_loss at every call site: predictions and targets of
+        # equal shape (n_samples, ...features), one mask value per sample (n_samples,).
+        # (The docstring names the 2-D case (n_samples, n_features); since repo commit
+        # fa2305c the function applies the per-sample mask to any feature rank, so the
+        # 1-D calls of the encoder loss are within its contract - what they compute is
+        # checked by the value obligations below, which FAIL on the pre-fix tree.)
         if getattr(fn, "qualname", None) == L + "masked_mse_loss" and E.st.ghost.get("in_encoder_loss"):
             pr, tg, mk = [T.as_tensor(a) for a in (list(args) + [kwargs.get(k) for k in ("predictions", "targets", "mask")][len(args):])]
-            ok = pr.ndim == 2 and tg.ndim == 2 and mk.ndim == 1 and T.dim_eq(pr.shape[0], mk.shape[0])
+            ok = (pr.ndim >= 1 and pr.ndim == tg.ndim and all(T.dim_eq(a, b) for a, b in zip(pr.shape, tg.shape))
+                  and mk.ndim == 1 and T.dim_eq(pr.shape[0], mk.shape[0]))
             n = E.st.ghost["mmse_calls"] = E.st.ghost.get("mmse_calls", 0) + 1
             which = ("dynamics", "reward_mse", "done")[(n - 1) % 3]
-            name = f"model_based_encoder_loss.call[masked_mse_loss#{which}].pre.documented_shapes"
+            name = f"model_based_encoder_loss.call[masked_mse_loss#{which}].pre.one_mask_value_per_sample"
             if ok:
                 E.st.ok(name)
             else:
-                E.st.fail(name, f"masked_mse_loss documents predictions/targets (n_samples, n_features) and mask (n_samples,); called with {pr.shape}, {tg.shape}, {mk.shape}")
+                E.st.fail(name, f"masked_mse_loss needs predictions/targets of equal shape (n_samples, ...) and mask (n_samples,); called with {pr.shape}, {tg.shape}, {mk.shape}")
         return None
 
     shared.observers.append(observe)
@@ -899,10 +904,42 @@ def mk_encoder_loss(horizon, batch1=False, act1=False):
 
 TASKS += [
     Task("model_based_encoder_loss[horizon=2]", mk_encoder_loss(2), setup=setup_encoder, bounded="encoder_horizon == 2 (nnx.scan unrolled exactly; horizon <= 3 stand-in for the unbounded fold)"),
+    Task("model_based_encoder_loss[horizon=3]", mk_encoder_loss(3), setup=setup_encoder, bounded="encoder_horizon == 3 (nnx.scan unrolled exactly; horizon <= 3 stand-in for the unbounded fold)"),
+    Task("model_based_encoder_loss[horizon=2,D_act=1]", mk_encoder_loss(2, act1=True), setup=setup_encoder, bounded="encoder_horizon == 2"),
     Task("model_based_encoder_loss[horizon=2,N=1]", mk_encoder_loss(2, batch1=True), setup=setup_encoder, allow_raise=LOUD, bounded="encoder_horizon == 2"),
 ]
 
-TRUSTED = []
-ASSUMPTIONS = []
-NOT_COVERED = []
-REPLAY = {}
+TRUSTED = [
+    "stub: pyvc.lib.ext_policy_stub StubStochasticPolicy (policy.sample / log_probability are uninterpreted row-wise functions of (params, obs row, key+batch position | action row))",
+    "stub: pyvc.lib.ext_losses.rowwise_fn for avg_l1_norm (its defining formula is proved by task avg_l1_norm) and for the encoder's activation hyper-parameter",
+    "stub: discounted_n_step_return by its docstring contract (C07) in the mrq_loss tasks; inlined for horizon 2 in the bounded task",
+    "stub: two_hot_cross_entropy_loss by its docstring contract (one CE value per sample, a function of bins / that sample's logits / that sample's target) in the encoder-loss tasks",
+    "model: flax.nnx.scan unrolled exactly for a concrete length (pyvc.lib.ext_losses)",
+    "rule: Sum congruence (pyvc.tensor.close_sums, lemmas/SumLemmas.lean PyvcSum.sum_congr_range); hash-consing of syntactically identical sums / rows is its solver-free special case",
+]
+ASSUMPTIONS = [
+    "floats are reals (no rounding, overflow, NaN); numerical agreement to float tolerance is what replay checks, not what is proved",
+    "networks (MLP / LayerNormMLP / nnx.Linear / LayerNorm) are uninterpreted ROW-WISE functions of their parameters: output row b depends on input row b only (no BatchNorm / Dropout in rl_blox)",
+    "a row is determined by its components (row extensionality): tensors with identical element terms share their row function",
+    "batch_order_invariance: every loss is proved equal to a mean / sum over the batch index i of an integrand that mentions only index-i data (rows i of the batch arrays, network applications to them); invariance under a permutation of the batch is then Finset `Equiv.sum_comp` (lemmas/SumLemmas.lean) - no separate obligation.  For sac_loss the sampled noise is a function of (key, batch position), so the invariance is jointly in (batch, noise).",
+    "jax.lax.stop_gradient is the identity on values and clears the differentiable-dependency ghost; gradient obligations are statements about that ghost (gdeps): 'zero gradient w.r.t. X' == X is not in gdeps(loss).  Bootstrap inputs (next_obs, next_action) are tagged as differentiable sources so that a missing stop_gradient on a path that uses only online networks is still observable.",
+    "scenarios: generic = all dimensions distinct symbols >= 2 (batch N, observation D_obs, action D_act / number of discrete actions, embedding sizes); degenerate = N == 1 (documented value or an exception, never a different value), D_act == 1; gamma in [0,1]; min_priority > 0; reward_scale > 0; alpha, clipping range, loss weights arbitrary reals",
+    "termination flags are 0/1 integers; discrete actions are integers in [0, n_actions)",
+    "optax 0.2.8: squared_error raises on unequal shapes (utils.check_shapes_equal, also for () vs (1,)); huber_loss broadcasts",
+    "td7_update_critic: the specification terms are evaluated on the pre-state; SALE and CriticSALE are the real classes over uninterpreted layers",
+    "model_based_encoder_loss: bounded stand-in, encoder_horizon in {2, 3} (the nnx.scan over the horizon is unrolled exactly); masking m_0 = 1, m_{t+1} = m_t (1 - terminated_t) as in the docstring/comment and DESIGN C03/C07",
+]
+NOT_COVERED = [
+    "model_based_encoder_loss for an arbitrary (symbolic) horizon: proved for horizon 2 and 3 only (labelled bounded)",
+    "update_model_based_encoder / update_sale / update_critic_and_policy wrappers (C05's subject)",
+    "two_hot_cross_entropy_loss, two_hot_encoding internals and discounted_n_step_return (contracts used here; C18 / C07)",
+    "concrete policy heads (GaussianTanhPolicy ...) inside sac_loss: the policy is the StochasticPolicyBase interface (C13)",
+    "ddqn_per_loss with a scalar is_ratio (default 1.0) is covered only through the tensor-weight scenario",
+]
+REPLAY = {"": "c03_losses"}
+EXPLANATION = (
+    "Each loss is executed symbolically on a batch of symbolic size with uninterpreted networks and proved equal to the regression "
+    "written from its docstring (target y = r + (1-t) gamma bootstrap; mean of squared / Huber / importance-weighted errors; aux outputs); "
+    "the no-bootstrap corollary is a 2-copy proof (second run with another next_obs under 'all terminated'), gradient claims are "
+    "checked on the differentiable-dependency ghost."
+)
